@@ -68,6 +68,8 @@ def build(repo, tier):
     for _fn in ('apply_esubst', 'apply_ssubst', 'instantiate_internal'):
         spec.lemma_replayers['C01/rs/' + _fn + '/'] = rs_fn_replayer
     spec.extra_checks.append(lambda tier, seed: [soundness_standin(repo.root, tier, seed)])
+    from .c05 import differential_standin
+    spec.extra_checks.append(lambda tier, seed: [differential_standin(repo.root, tier, seed)])       # checker = documented machine on crafted multi-instruction runs and random programs (bounded)
     return spec
 
 
